@@ -4,7 +4,7 @@ from typing import Optional
 from ..core import Report
 from ..fjfront import Stl
 from ..pyfacts import Repo
-from ..stlrules import rule_closure, rule_extent, rule_alias, rule_scratch, rule_const_fits, rule_carry_top, rule_jumpword_restore, rule_alias_safe, rule_snapshot_order
+from ..stlrules import rule_closure, rule_extent, rule_alias, rule_scratch, rule_const_fits, rule_carry_top, rule_jumpword_restore, rule_alias_safe, rule_snapshot_order, rule_zero_noop
 
 FILES = ['flipjump/stl/bit/memory.fj', 'flipjump/stl/bit/logics.fj', 'flipjump/stl/bit/cond_jumps.fj', 'flipjump/stl/bit/shifts.fj',
          'flipjump/stl/bit/math.fj', 'flipjump/stl/bit/mul.fj', 'flipjump/stl/bit/div.fj']
@@ -23,6 +23,7 @@ def check(rep: Report, repo: Optional[Repo] = None) -> None:
     rule_snapshot_order(rep, stl, 'C05', FILES, 5)
     rule_jumpword_restore(rep, stl, 'C05', FILES, 2)
     rule_alias_safe(rep, stl, 'C05', FILES, 2)
+    rule_zero_noop(rep, stl, 'C05', FILES, 4)
     rep.assumptions.append('footprints assume generic position: distinct symbolic operands of a compile-time `==` / `!=` aliasing test denote distinct variables')
     rep.not_decided.append('bit-serial arithmetic correctness for every operand (needs execution of FlipJump code)')
 
